@@ -361,7 +361,19 @@ func GenProg(r *RNG, q *big.Int, cfg GenCfg) *Prog {
 		kinds = allKinds
 	}
 	// the API documents that MulAcc may mutate its first argument, which must not be used afterwards
+	// Select / Lookup2 may return one of their data operands itself (constant selectors - also after inputs are
+	// replaced by constants in the variants): result and operands then share one slice, and a later MulAcc on any of
+	// them mutates all.  Variables are therefore grouped in alias classes; an accumulator kills its whole class.
 	dead := map[int]bool{}
+	parent := map[int]int{}
+	var root func(v int) int
+	root = func(v int) int {
+		if pv, ok := parent[v]; ok && pv != v {
+			return root(pv)
+		}
+		return v
+	}
+	isDead := func(v int) bool { return dead[root(v)] }
 	anyArg := func(allowConst bool) Arg {
 		if allowConst && r.Intn(5) == 0 {
 			return Arg{Const: true, C: r.FieldElem(q)}
@@ -371,7 +383,7 @@ func GenProg(r *RNG, q *big.Int, cfg GenCfg) *Prog {
 			if nvars > 4 && r.Intn(2) == 0 { // recent
 				v = nvars - 1 - r.Intn(3)
 			}
-			if !dead[v] {
+			if !isDead(v) {
 				return Arg{V: v}
 			}
 		}
@@ -379,7 +391,7 @@ func GenProg(r *RNG, q *big.Int, cfg GenCfg) *Prog {
 	}
 	boolArg := func() Arg {
 		if len(boolVars) > 0 && r.Intn(8) != 0 {
-			if v := boolVars[r.Intn(len(boolVars))]; !dead[v] {
+			if v := boolVars[r.Intn(len(boolVars))]; !isDead(v) {
 				return Arg{V: v}
 			}
 		}
@@ -420,7 +432,7 @@ func GenProg(r *RNG, q *big.Int, cfg GenCfg) *Prog {
 				if (!op.Args[1].Const && op.Args[1].V == op.Args[0].V) || (!op.Args[2].Const && op.Args[2].V == op.Args[0].V) {
 					continue // the accumulator may not alias the factors either
 				}
-				dead[op.Args[0].V] = true
+				dead[root(op.Args[0].V)] = true
 			}
 		case "Div", "DivUnchecked":
 			op.Args = []Arg{anyArg(true), anyArg(true)}
@@ -480,6 +492,17 @@ func GenProg(r *RNG, q *big.Int, cfg GenCfg) *Prog {
 		if bad {
 			continue
 		}
+		if k == "Select" || k == "Lookup2" {
+			first := 1
+			if k == "Lookup2" {
+				first = 2
+			}
+			for _, a := range op.Args[first:] {
+				if !a.Const {
+					parent[root(a.V)] = nvars // the result joins the class of every data operand
+				}
+			}
+		}
 		n := op.nres(fieldBits)
 		for i := 0; i < n; i++ {
 			if isBoolRes || k == "ToBinary" {
@@ -497,10 +520,10 @@ func GenProg(r *RNG, q *big.Int, cfg GenCfg) *Prog {
 			o := first + r.Intn(nvars-first)
 			// never expose an accumulator that was handed to MulAcc (documented: it may have been mutated): take the next
 			// live result instead (no extra random draw: the rest of the stream is unchanged)
-			for k := 0; k < nvars-first && dead[o]; k++ {
+			for k := 0; k < nvars-first && isDead(o); k++ {
 				o = first + (o-first+1)%(nvars-first)
 			}
-			if dead[o] {
+			if isDead(o) {
 				continue
 			}
 			p.Outs = append(p.Outs, o)
